@@ -1350,12 +1350,9 @@ Theorem c09_interface_emit : forall ev p st na res st' na' res' c,
      (if_out st' = if_out st \/ exists k a, if_out st' = if_out st ++ [FO_Aux k a])).
 Proof.
   intros ev p st na res st' na' res' c H. unfold if_respond in H.
-  destruct ((a_ver (p_dst p) =? 4) && (pkt_total_len p >? if_mtu st) && negb (if_frag_finished st)) eqn:EG.
-  { inversion H; subst. split; [discriminate|auto]. }
-  assert (Guard : a_ver (p_dst p) = 4 -> if_mtu st < pkt_total_len p -> if_frag_finished st = true).
-  { intros G1 G2. destruct (if_frag_finished st) eqn:EF; [reflexivity|]. exfalso.
-    rewrite (proj2 (Z.eqb_eq _ _) G1), Z.gtb_ltb, (proj2 (Z.ltb_lt _ _) G2) in EG. discriminate EG. }
-  clear EG.
+  destruct (if_frag_finished st) eqn:EG; cbn [negb] in H.
+  2:{ inversion H; subst. split; [discriminate|auto]. }
+  assert (Guard : a_ver (p_dst p) = 4 -> if_mtu st < pkt_total_len p -> true = true) by reflexivity.
   destruct (negb (if_has_token st)).
   { inversion H; subst. split; [discriminate|auto]. }
   unfold if_dispatch_ip in H.
@@ -1394,7 +1391,7 @@ Proof.
       + destruct (cfg_FRAGMENTATION_BUFFER_SIZE <? pkt_total_len p) eqn:EB; bools.
         * inversion HC; subst. right; right. splits; auto; lia.
         * (* the guard of the closure: the fragmenter is free here *)
-          assert (FF : if_frag_finished st = true) by (apply Guard; [assumption|lia]).
+          assert (FF : if_frag_finished st = true) by exact EG.
           rewrite FF in HC. cbn [negb] in HC. inversion HC; subst.
           right; left. splits; auto; try lia.
       + inversion HC; subst. right; right. splits; auto; try lia.
@@ -1480,6 +1477,153 @@ Proof.
     rewrite TE. reflexivity.
   - destruct (IH st1 f len (sent + n) F1 B1 ltac:(rewrite M1; exact HM) ltac:(lia) ltac:(lia)) as (I1 & I2).
     split; [exact I1|]. rewrite I2, O1, M1. rewrite <- app_assoc. reflexivity.
+Qed.
+
+(* ---- order on the wire ----
+   [wire_scan open out]: run over the transmitted frames; [open] = a fragment train is unfinished.
+   A whole datagram (FO_Pkt appended by consume, or the report that follows a last fragment)
+   must never appear while a train is open; stack-generated frames (FO_Aux) may. *)
+Fixpoint wire_scan (open : bool) (out : list frame_out) : option bool :=
+  match out with
+  | [] => Some open
+  | FO_Frag _ _ more :: r => wire_scan more r
+  | FO_Pkt _ :: r => if open then None else wire_scan false r
+  | FO_Aux _ _ :: r => wire_scan open r
+  end.
+
+Lemma wire_scan_app : forall a b o,
+  wire_scan o (a ++ b) = match wire_scan o a with Some o' => wire_scan o' b | None => None end.
+Proof.
+  induction a as [|f a IH]; intros b o; [reflexivity|]. cbn [app wire_scan].
+  destruct f; [destruct o; [reflexivity|]| |]; apply IH.
+Qed.
+
+(* the wire is consistent with the fragmenter: a train is open on the wire iff the fragmenter
+   still holds unsent fragments; [o0] is the openness when the log [if_out] was last emptied *)
+Definition wire_coherent (o0 : bool) (st : iface) : Prop :=
+  wire_scan o0 (if_out st) = Some (negb (if_frag_finished st)) /\
+  match if_frag st with
+  | Some (f, len, sent) => sent <= len /\ match f with FO_Frag _ _ _ => False | _ => True end
+  | None => True
+  end.
+
+Lemma lookup_hw_coherent : forall ev st dst st1 ok o0,
+  if_lookup_hardware_addr ev st dst = (st1, ok) -> wire_coherent o0 st -> wire_coherent o0 st1.
+Proof.
+  intros ev st dst st1 ok o0 L (C1 & C2). unfold if_lookup_hardware_addr in L.
+  assert (Aux : forall k a, wire_coherent o0 (if_set_silent (if_consume st (FO_Aux k a)) (if_now (if_consume st (FO_Aux k a)) + neigh_SILENT_TIME_ms))).
+  { intros k a. unfold wire_coherent, if_set_silent, if_consume, if_set_out, if_set_budget, if_frag_finished in *. cbn.
+    rewrite wire_scan_app, C1. cbn. auto. }
+  destruct (e_is_broadcast ev dst); [inversion L; subst; split; auto|].
+  destruct (e_is_multicast ev dst); [inversion L; subst; split; auto|].
+  destruct (e_route ev dst) as [nh|]; [|inversion L; subst; split; auto].
+  destruct (neigh_lookup st nh =? 0); [inversion L; subst; split; auto|].
+  destruct (neigh_lookup st nh =? 2); [inversion L; subst; split; auto|].
+  destruct (a_ver nh =? 4).
+  - destruct (e_src_v4 ev nh); inversion L; subst; [apply Aux|split; auto].
+  - inversion L; subst. apply Aux.
+Qed.
+
+(* dispatch_ip of a whole datagram [FO_Pkt p] keeps the wire coherent provided no train is open
+   (which is what the hold-back of socket_egress guarantees); of a stack reply always *)
+Lemma dispatch_ip_coherent : forall ev st ver dst total f st' ok o0,
+  if_dispatch_ip ev st ver dst total f = Ok (st', ok) ->
+  wire_coherent o0 st -> 0 < if_max_frag st -> if_mtu st < cfg_FRAGMENTATION_BUFFER_SIZE \/ True ->
+  (match f with FO_Pkt _ => if_frag_finished st = true | FO_Aux _ _ => True | FO_Frag _ _ _ => False end) ->
+  (total > if_mtu st -> if_max_frag st + wipv4_HEADER_LEN <= total) ->
+  wire_coherent o0 st'.
+Proof.
+  intros ev st ver dst total f st' ok o0 H C HM _ HF HT. unfold if_dispatch_ip in H.
+  destruct (addr_is_unspecified dst); [discriminate|].
+  destruct (if if_eth st then if_lookup_hardware_addr ev st dst else (st, true)) as [st1 ok1] eqn:EL.
+  assert (C1 : wire_coherent o0 st1 /\ (ok1 = true -> st1 = st)).
+  { destruct (if_eth st).
+    - split; [eapply lookup_hw_coherent; eauto|].
+      intros ->. unfold if_lookup_hardware_addr in EL.
+      destruct (e_is_broadcast ev dst); [inversion EL; auto|].
+      destruct (e_is_multicast ev dst); [inversion EL; auto|].
+      destruct (e_route ev dst) as [nh|]; [|inversion EL].
+      destruct (neigh_lookup st nh =? 0); [inversion EL; auto|].
+      destruct (neigh_lookup st nh =? 2); [inversion EL|].
+      destruct (a_ver nh =? 4); [destruct (e_src_v4 ev nh)|]; inversion EL.
+    - inversion EL; subst. auto. }
+  destruct C1 as (C1 & Same).
+  destruct ok1; cbn [negb] in H; [|inversion H; subst; exact C1].
+  rewrite (Same eq_refl) in *. clear Same C1 EL st1.
+  destruct C as (W & B).
+  assert (Whole : wire_coherent o0 (if_consume st f)).
+  { unfold wire_coherent, if_consume, if_set_out, if_set_budget, if_frag_finished in *. cbn.
+    rewrite wire_scan_app, W. split; [|exact B].
+    destruct f; cbn; try contradiction.
+    - cbn in HF. unfold if_frag_finished in HF. rewrite HF. reflexivity.
+    - reflexivity. }
+  destruct (total >? if_mtu st) eqn:EM; [|inversion H; subst; exact Whole].
+  rewrite Z.gtb_ltb in EM. bools.
+  destruct (ver =? 4); [|inversion H; subst; exact (conj W B)].
+  destruct (cfg_FRAGMENTATION_BUFFER_SIZE <? total); [inversion H; subst; exact (conj W B)|].
+  destruct (negb (if_frag_finished st)) eqn:EF; [inversion H; subst; split; [rewrite EF; exact W|exact B]|].
+  inversion H; subst. bools.
+  unfold wire_coherent, if_set_frag, if_consume, if_set_out, if_set_budget, if_frag_finished in *. cbn.
+  rewrite wire_scan_app, W. cbn. specialize (HT ltac:(lia)).
+  split; [|split; [lia|destruct f; auto]].
+  destruct (total =? if_max_frag st + wipv4_HEADER_LEN) eqn:E; bools; cbn.
+  - (* a train of one fragment cannot arise: the packet is larger than the MTU *)
+    unfold if_max_frag in *. pose proof (eq_refl : wipv4_HEADER_LEN = 20) as HL. rewrite HL in *.
+    pose proof (Z.mod_pos_bound (if_mtu st - 20) 8 ltac:(lia)). lia.
+  - reflexivity.
+Qed.
+
+Lemma ipv4_egress_coherent : forall st o0,
+  wire_coherent o0 st -> 0 < if_max_frag st -> wire_coherent o0 (if_ipv4_egress st).
+Proof.
+  intros st o0 (W & B) HM. unfold if_ipv4_egress.
+  destruct (if_frag_finished st) eqn:EF.
+  - (* reset: nothing to send *)
+    unfold wire_coherent, if_set_frag, if_frag_finished in *. cbn. rewrite W. cbn. auto.
+  - unfold if_frag_finished in EF. destruct (if_frag st) as [[[f len] sent]|] eqn:EFr; [|discriminate].
+    bools. destruct ((sent <? len) && if_has_token st) eqn:ET.
+    2:{ unfold wire_coherent, if_frag_finished. rewrite EFr. split; [|exact B].
+        rewrite W. destruct (len =? sent) eqn:E2; bools; [lia|reflexivity]. }
+    destruct B as (B & NF).
+    bools. set (n := Z.min (len - sent) (if_max_frag st)).
+    assert (0 < n) by (unfold n; lia).
+    destruct (len - sent =? n) eqn:EL; cbn [negb]; bools.
+    + (* last fragment, then the report *)
+      unfold wire_coherent, if_report, if_set_frag, if_consume, if_set_out, if_set_budget, if_frag_finished in *. cbn.
+      rewrite <- app_assoc, wire_scan_app, W. cbn.
+      replace (len =? sent + n) with true by (symmetry; apply Z.eqb_eq; lia). cbn.
+      split; [|split; [lia|exact NF]]. destruct f; [reflexivity|reflexivity|contradiction].
+    + unfold wire_coherent, if_set_frag, if_consume, if_set_out, if_set_budget, if_frag_finished in *. cbn.
+      rewrite wire_scan_app, W. cbn.
+      replace (len =? sent + n) with false by (symmetry; apply Z.eqb_neq; unfold n in *; lia). cbn.
+      split; [reflexivity|split; [unfold n; lia|exact NF]].
+Qed.
+
+(* The emit closure of socket_egress: while a fragment train is unfinished NOTHING of any socket
+   leaves and the datagram stays queued (EMIT_BUSY, state unchanged); otherwise the wire stays
+   coherent.  With [wire_scan] this is the order property: all fragments of a datagram precede
+   every frame of the datagram queued behind it. *)
+Theorem c09_fragments_before_next_datagram : forall ev p st na res st' na' res' c o0,
+  if_respond ev p (st, na, res) = Ok ((st', na', res'), c) ->
+  wire_coherent o0 st -> 0 < if_max_frag st -> if_max_frag st + wipv4_HEADER_LEN <= if_mtu st ->
+  (if_frag_finished st = false -> c = EMIT_BUSY /\ st' = st) /\
+  (c = EMIT_OK -> if_frag_finished st = true) /\
+  wire_coherent o0 st' /\
+  exists o', wire_scan o0 (if_out st') = Some o'.
+Proof.
+  intros ev p st na res st' na' res' c o0 H C HM HMTU.
+  assert (G : (if_frag_finished st = false -> c = EMIT_BUSY /\ st' = st) /\
+              (c = EMIT_OK -> if_frag_finished st = true) /\ wire_coherent o0 st').
+  { unfold if_respond in H. destruct (if_frag_finished st) eqn:EF; cbn [negb] in H.
+    2:{ inversion H; subst. splits; auto. discriminate. }
+    destruct (negb (if_has_token st)).
+    { inversion H; subst. splits; auto; discriminate. }
+    match type of H with obind ?x _ = _ => destruct x as [[st1 ok]| |] eqn:EX; cbn [obind] in H; [|discriminate H..] end.
+    assert (C1 : wire_coherent o0 st1).
+    { eapply dispatch_ip_coherent; eauto. intros; lia. }
+    destruct ok; inversion H; subst; splits; auto; discriminate. }
+  destruct G as (G1 & G2 & G3). splits; auto.
+  destruct G3 as (W & _). eauto.
 Qed.
 
 (* boundaries: what has been handed out is, position by position, what was stored *)
